@@ -218,9 +218,15 @@ def undispatched(ops, snaps):
     return connected - seen - failed
 
 
+def no_verdict(trace):
+    """a case the harness did not run (several accept loops of that process were already spinning) or that fell behind a crashed/hung
+    shard gives no verdict; the spinning cases themselves are reported"""
+    return "SKIPPED" in trace
+
+
 def make_stream(name, cases, pred, describe, nontrivial):
     return Stream(name, "srv", cases, compare=compare,
-                  monitor=lambda c, i, m: pred(c, i) is None,
+                  monitor=lambda c, i, m: no_verdict(i) or pred(c, i) is None,
                   nontrivial=nontrivial, shrink=shrink_ops, describe=describe, timeout=400)
 
 
